@@ -94,8 +94,9 @@ int32_t psBase64decode(const unsigned char *in, psSize_t len,
         if (c == 254)
         {
             c = 0;
-            /* prevent g < 0 which would potentially allow an overflow later */
-            if (--g < 0)
+            /* At most two '=' are valid.  A third one would still emit one
+               byte below, which the z + g bound does not account for */
+            if (--g < 1)
             {
                 psTraceCrypto("Negative g failure in psBase64decode\n");
                 return PS_LIMIT_FAIL;
